@@ -127,6 +127,110 @@ def _memo_value_depends(f, attr):
     return False
 
 
+def _size_only_key(f, attr):
+    """(arguments the value assigned to `attr` depends on, text) when every comparison in the test(s) that guard the
+    assignment looks only at sizes (.shape / len / .size), end points ([0], [-1]) or presence (is None) - else None"""
+    import ast as _ast
+    from sa.algebra import dotted
+    params = set(f.params()) - {'self', 'cls'}
+    if not params:
+        return None
+    # taint of locals by parameters
+    carry = {p: {p} for p in params}
+    changed = True
+
+    def deps(expr):
+        out = set()
+        for x in _ast.walk(expr):
+            if isinstance(x, _ast.Name) and x.id in carry:
+                out |= carry[x.id]
+        return out
+    while changed:
+        changed = False
+        for n in _ast.walk(f.node):
+            tg = None
+            if isinstance(n, _ast.Assign):
+                tg, val = n.targets, n.value
+            elif isinstance(n, _ast.For):
+                tg, val = [n.target], n.iter
+            elif isinstance(n, _ast.AugAssign):
+                tg, val = [n.target], n.value
+            if not tg:
+                continue
+            d = deps(val)
+            if not d:
+                continue
+            for t in tg:
+                for x in _ast.walk(t):
+                    if isinstance(x, _ast.Name) and isinstance(x.ctx, _ast.Store):
+                        if not d <= carry.get(x.id, set()):
+                            carry.setdefault(x.id, set()).update(d)
+                            changed = True
+                    # item stores into a local array: the array now carries the dependency
+                    if isinstance(x, _ast.Subscript) and isinstance(x.value, _ast.Name) and isinstance(x.ctx, _ast.Store):
+                        if not d <= carry.get(x.value.id, set()):
+                            carry.setdefault(x.value.id, set()).update(d)
+                            changed = True
+    used = set()
+    tests = []
+    for n in _ast.walk(f.node):
+        if isinstance(n, _ast.If):
+            hit = False
+            for st in _ast.walk(n):
+                if isinstance(st, _ast.Assign) and any(dotted(t) == attr for t in st.targets):
+                    used |= deps(st.value)
+                    hit = True
+            if hit and any(isinstance(x, _ast.Attribute) and dotted(x) is not None and (dotted(x) == attr or dotted(x).startswith(attr + '.'))
+                           for x in _ast.walk(n.test)):
+                tests.append(n.test)
+    used &= params
+    if not used or not tests:
+        return None
+
+    def size_like(x):
+        # expressions that say nothing about contents
+        if isinstance(x, _ast.Constant):
+            return True
+        if isinstance(x, _ast.Attribute) and x.attr in ('shape', 'size', 'ndim', 'dtype', 'nLayers', 'nlayers', 'nLevels',
+                                                          '_nlayers', '_ngrid'):     # counts, not contents
+            return True
+        if isinstance(x, _ast.Call) and isinstance(x.func, _ast.Name) and x.func.id == 'len':
+            return True
+        if isinstance(x, _ast.Subscript):
+            if size_like(x.value):
+                return True
+            sl = x.slice
+            if isinstance(sl, _ast.UnaryOp) and isinstance(sl.operand, _ast.Constant):
+                sl = sl.operand
+            return isinstance(sl, _ast.Constant) and sl.value in (0, 1)        # first / last element
+        if isinstance(x, (_ast.Tuple, _ast.List)):
+            return all(size_like(e) for e in x.elts)
+        if isinstance(x, _ast.Name):
+            # a local built only from size-like things
+            for n in _ast.walk(f.node):
+                if isinstance(n, _ast.Assign) and len(n.targets) == 1 and isinstance(n.targets[0], _ast.Name) and \
+                        n.targets[0].id == x.id:
+                    return size_like(n.value)
+            return False
+        if isinstance(x, _ast.BinOp):
+            return size_like(x.left) and size_like(x.right)
+        return False
+    for t in tests:
+        for c in _ast.walk(t):
+            if isinstance(c, _ast.Compare):
+                for side in [c.left] + list(c.comparators):
+                    if isinstance(side, _ast.Constant) and side.value is None:
+                        continue
+                    if isinstance(side, _ast.Attribute) and dotted(side) == attr:
+                        continue
+                    if not size_like(side):
+                        return None
+            if isinstance(c, _ast.Call) and isinstance(c.func, _ast.Attribute) and c.func.attr in (
+                    'array_equal', 'allclose', 'array_equiv', 'all', 'any'):
+                return None          # contents are compared
+    return used, 'sizes / end points match (%s)' % '; '.join(_ast.unparse(t)[:80] for t in tests)
+
+
 def _invalidation_sites(ix, f, attr):
     """other methods of the class hierarchy (not constructors, not f) that assign attr"""
     from sa.effects import attr_writes
@@ -231,6 +335,15 @@ def memo_obligation(ix, R, oid, relpaths, what, skip=('__init__', 'init')):
                         continue
                     inv = _invalidation_sites(ix, f, attr)
                     if inv:
+                        # invalidated by setters of the object's own state - which cannot know about the ARGUMENTS the
+                        # memoised value was computed from.  If it depends on an argument and the reuse test only looks
+                        # at sizes / end points / presence, a second call with other data of the same size gets the
+                        # stale value
+                        weak = _size_only_key(f, attr)
+                        if weak:
+                            bad.append((f, attr, '%s (the memo depends on the argument%s %s and is reused whenever %s)' % (
+                                cond, 's' if len(weak[0]) > 1 else '', ', '.join(sorted(weak[0])), weak[1])))
+                            continue
                         invalidated.append('%s %s (reset in %s)' % (f.qualname, attr, ', '.join(inv)))
                         continue
                     bad.append((f, attr, cond))
